@@ -78,10 +78,11 @@ seed_zoneinfo()
 
 
 class Bounds:
-    def __init__(self, maxlen=2, maxkeys=2, depth=6):
+    def __init__(self, maxlen=2, maxkeys=2, depth=6, poolmax=None):
         self.maxlen = maxlen
         self.maxkeys = maxkeys
         self.depth = depth
+        self.poolmax = poolmax  # truncate leaf pools (for positions the obligation does not depend on)
 
 
 class Ctx:
@@ -96,6 +97,11 @@ class Ctx:
         self.n += 1
         self.vars.append((name, ann, pre.replace("$", name) if pre else None))
         return name
+
+    def cut(self, vals):
+        if self.bounds.poolmax:
+            return vals[: self.bounds.poolmax]
+        return vals
 
     def sel(self, n):
         if n <= 1:
@@ -265,21 +271,21 @@ def plan(t, ctx, depth=0, tvmap=None):
             return Pool(ctx.sel(len(vals)), vals)
         return Scalar(ctx.new("s", "str", "len($) <= 3"))
     if k in POOLS:
-        vals = POOLS[k]
+        vals = ctx.cut(POOLS[k])
         return Pool(ctx.sel(len(vals)), vals)
     if k == "ip":
-        vals = [ti.type(x) for x in IP_POOLS[ti.type]]
+        vals = ctx.cut([ti.type(x) for x in IP_POOLS[ti.type]])
         return Pool(ctx.sel(len(vals)), vals)
     if k == "path":
-        vals = [ti.type("/tmp/x"), ti.type("a/b.txt"), ti.type(".")]
+        vals = ctx.cut([ti.type("/tmp/x"), ti.type("a/b.txt"), ti.type(".")])
         return Pool(ctx.sel(len(vals)), vals)
     if k == "stype":
         return Tup([Scalar(ctx.new("i", "int"))], ctor=lambda xs, c=ti.type: c(xs[0]))
     if k == "enum":
-        vals = list(ti.type)
+        vals = ctx.cut(list(ti.type))
         return Pool(ctx.sel(len(vals)), vals)
     if k == "literal":
-        vals = list(ti.args)
+        vals = ctx.cut(list(ti.args))
         return Pool(ctx.sel(len(vals)), vals)
     if k == "optional":
         fl = ctx.new("z", "bool")
